@@ -95,7 +95,7 @@ def _iter_module_names(inference_state, paths):
             dir_entries = ((entry.name, entry.is_dir()) for entry in os.scandir(path))
         except OSError:
             try:
-                zip_import_info = zipimporter(path)
+                zip_import_info = zipimporter(str(path))
                 # Unfortunately, there is no public way to access zipimporter's
                 # private _files member. We therefore have to use a
                 # custom function to iterate over the files.
